@@ -5,10 +5,14 @@ FaultCount(p) == LET RECURSIVE S(_, _) S(s, i) == IF i > Len(s) THEN 0 ELSE Card
                  IN S(p.schema, 1) + S(p.ops, 1)
 Seqs(S, lo, hi) == UNION {[1..n -> S] : n \in lo..hi}
 Projects == {p \in [schema : Seqs(SUBSET SchemaFaults, 1, MaxSchema), ops : Seqs(SUBSET OpFaults, 1, MaxOps),
-                    commands : {<<"check">>, <<"generate">>, <<"check", "generate">>, <<"generate", "check">>}] : FaultCount(p) <= MaxFaults}
+                    commands : {<<"check">>, <<"generate">>, <<"check", "generate">>, <<"generate", "check">>},
+                    gen : SUBSET {"resolvers", "server"}] :
+               /\ FaultCount(p) <= MaxFaults
+               \* optional outputs are varied where they can matter: generate requested, at most one fault
+               /\ (p.gen # {} => (FaultCount(p) <= 1 /\ p.commands \in {<<"generate">>, <<"check", "generate">>}))}
 MCInit == PInit(Projects)
 (* spec -> impl: one case per project, with every terminal outcome the model allows left to the trace spec *)
 Emit == (Emitting /\ stage = "loadSchema") =>
           PrintT(<<"CASE", ToJson([schema |-> [i \in DOMAIN P.schema |-> SetToSeq(P.schema[i])],
-                                   ops |-> [i \in DOMAIN P.ops |-> SetToSeq(P.ops[i])], commands |-> P.commands])>>)
+                                   ops |-> [i \in DOMAIN P.ops |-> SetToSeq(P.ops[i])], commands |-> P.commands, gen |-> SetToSeq(P.gen)])>>)
 =============================================================================
